@@ -161,7 +161,7 @@ Print Assumptions c15_tie_update_broker.
 
 (* With Metadata.Timeout set the deadline is an environment event ([dl] answers the successive pastDeadline
    tests); [ll b] says that b's answer has a leaderless partition, which makes the refresh retry (re-entering
-   with the candidate lists as they are and the advertised brokers [adv]). EVERY exit of a refresh — an answer,
+   with the candidate lists as they are and the advertised brokers in any order [adv a], chosen anew per retry). EVERY exit of a refresh — an answer,
    a leaderless answer after its retries, authentication failure, out of brokers, past the deadline with a
    candidate left, past the deadline with nobody left — keeps every seed the client was given (in the seed
    list or set aside), and never returns with nobody to ask while seeds are still set aside. *)
